@@ -160,7 +160,7 @@ def payload_ok(rule, p):
         return False
     if isinstance(rule, tuple) and rule[0] == "HEX":
         if not p.isascii():
-            return False if len(p) != rule[1] else None
+            return False      # hex digits are ASCII
         if len(p) != rule[1]:
             return False
         return bool(_HEX.match(p))
@@ -270,7 +270,11 @@ def corpus(rule):
         n = rule[1]
         return [("f" * n, True), ("0" * n, True), (("A1b2C3d4")[:n], True), ("", False),
                 ("f" * (n - 1), False), ("f" * (n + 1), False), ("g" * n, False),
-                ("f" * (n + 2), False), ("f" * (n - 2), False), ("zz" + "f" * (n - 2), False)]
+                ("f" * (n + 2), False), ("f" * (n - 2), False), ("zz" + "f" * (n - 2), False),
+                # exactly n characters but not n hex digits: blanks between byte pairs, sign, prefix, separators
+                ("ff" + " " * (n - 4) + "aa", False), (" " * 2 + "f" * (n - 2), False), ("ff\t\t" + "a" * (n - 4), False),
+                ("0x" + "f" * (n - 2), False), ("+" + "f" * (n - 1), False), ("f" * (n - 1) + "_", False),
+                ("ff:" + "f" * (n - 3), False), ("f" * (n - 2) + "\u0666\u0666", False)]
     if rule == "GPS":
         return [("1,2,3", True), ("55.7,13.1,10.5", True), ("-1.5,-2,0", True), ("", False), ("1,2", False),
                 ("1,2,3,4", False), ("a,b,c", False), ("1,2,x", False), ("1;2", False), ("1, 2, 3", None)]
